@@ -40,6 +40,7 @@ type HarnessSpec struct {
 	Repeat        int      `json:"repeat"`
 	BudgetS       int      `json:"budget_s"`
 	isWindow      bool
+	Race          bool               `json:"race"`         // happens-before race detection along the explored schedule
 	BranchPrune   bool               `json:"branch_prune"` // wall-clock budget of one symbolic execution
 	Classes       []string           `json:"classes"`      // obligation classes judged for this property (empty = all)
 	AssertIDs     []string           `json:"assert_ids"`   // substrings of assertion ids judged (empty = all)         // native replay: repeat up to this many times (schedule-dependent scenarios)
@@ -120,6 +121,7 @@ func runHarness(l *loaded, spec HarnessSpec, trace bool, dumpDir string) *Harnes
 	}
 	m.SymFrom, m.SymTo, m.Policy = spec.SymFrom, spec.SymTo, spec.Policy
 	m.Params = spec.Params
+	m.RaceDetect = spec.Race
 	m.PruneBranches = spec.BranchPrune
 	budget := spec.BudgetS
 	if budget == 0 {
